@@ -68,7 +68,7 @@ class Cmp:
     """`e <= 0` (strict False) or `e < 0` (strict True), e a sympy expr."""
 
     def __init__(self, e, strict):
-        self.e, self.strict = sp.simplify(e), strict
+        self.e, self.strict = sp.expand(e), strict
 
     def neg(self):
         return Cmp(-self.e, not self.strict)
@@ -408,9 +408,11 @@ class LenInterp:
 def parity_zero(e):
     """Is the integer expression e identically 0?  floor / ceiling of halves
     are resolved by substituting every integer symbol by 2k and 2k+1."""
-    e = sp.simplify(e)
+    e = sp.expand(e)
     if e == 0:
         return True
+    if not e.atoms(sp.floor, sp.ceiling):
+        return sp.simplify(e) == 0
     syms = sorted((s for s in e.free_symbols if s.is_integer),
                   key=lambda s: s.name)
     if len(syms) > 6:
